@@ -193,9 +193,20 @@ def check_case(ctx, case, rng):
         if {k: repr(v) for k, v in cs.consts.items()} != ref_consts:
             ctx.violation(label, "constants-differ-after-mutation", {"text": text, "variant": variant, "how": how})
             return
-        if behaviour(cs, case, inputs) != ref_beh:
+        beh = behaviour(cs, case, inputs)
+        if beh != ref_beh:
+            # a difference between two parses of the same bytes is deterministic: it shows again when both sides are
+            # evaluated once more (an abandoned parse on a loaded machine does not, and is no verdict)
+            again_ref, again = behaviour(ref, case, inputs), behaviour(cs, case, inputs)
+            if again == again_ref:
+                ctx.event("behaviour_difference_not_reproduced")
+                return
+            k = next((i for i, (a_, b_) in enumerate(zip(again, again_ref)) if a_ != b_), 0)
             ctx.violation(label, "parsing-behaviour-differs-after-mutation",
-                          {"text": text, "variant": variant, "how": how, "cfg": cfgd})
+                          {"text": text, "variant": variant, "how": how, "cfg": cfgd,
+                           "got": repr(again[k])[:600] if k < len(again) else None,
+                           "want": repr(again_ref[k])[:600] if k < len(again_ref) else None,
+                           "data": inputs[k].hex() if k < len(inputs) else None})
             return
         ctx.event(f"equivalent:{label}")
 
